@@ -55,3 +55,23 @@ PROPS['C06'] = dict(
     unreached=[],
     explanation='',
 )
+
+PROPS['C01'] = dict(
+    level='other',
+    contracts=['synth_specialindex'],
+    drivers=[],
+    assumptions=[FLOATS],
+    trusted_base=[],
+    unreached=[],
+    explanation='',
+)
+
+PROPS['C19'] = dict(
+    level='other',
+    contracts=['synth_envelope'],
+    drivers=[],
+    assumptions=[FLOATS],
+    trusted_base=[],
+    unreached=[],
+    explanation='',
+)
